@@ -15,7 +15,7 @@ RULE = ("(LOCUS: each of the twelve molecule types or none, topology / division 
         "/ 1..10^5 (thorough), every molecule type x topology x division, LOCUS gaps 1..12 blanks, lengths of 1-6 digits, "
         "0..40 features with 0..8 qualifiers (values over printable ASCII, a double quote only inside, with '/', '=', '//', leading/trailing "
         "blanks, long values wrapped at widths 20..79 or at random blanks, /translation cut mid-token), features without qualifiers, "
-        "locations on 1..6 lines, 0..5 references with optional AUTHORS/TITLE/JOURNAL/PUBMED/REMARK, 0..3 extra keyword blocks, "
+        "locations on 1..6 lines, 0..5 references (numbered by position or stating their own number: gaps, repeats, 0, descending, non-numeric tokens; REFERENCE line wrapped at its blanks) with optional AUTHORS/TITLE/JOURNAL/PUBMED/REMARK, 0..3 extra keyword blocks, "
         "1..5 records, with/without final newline, with/without the 10-line header, through Parse/ParseMulti/ParseFlat and the Read* "
         "wrappers. non-trivial = at least one feature or reference; distinct by case text")
 EXHAUSTIVE = {"quick": False, "thorough": False}
@@ -26,10 +26,14 @@ ASSUMPTIONS = ["inputs are ASCII",
                "location text is one INSDC-shaped expression (atom or operator(loc,...), complement with exactly one operand — a restriction of "
                "the check's grammar, Go reads more): texts with unbalanced or stray parentheses are outside the domain (Spec isLocText); "
                "on those (e.g. a truncated `join(1..2,`) genbank.Parse PANICS in parseLocation (slice bounds) — the driver mirrors it with "
-               "C02's parseLocation model (panic parity on every case), but that isLocText texts never panic is checked on every generated "
-               "case only, not proved",
+               "C02's parseLocation model (panic parity on every case, needed for the raw texts outside the domain). Inside the domain it "
+               "is a theorem, not an assumption: Props.C02.parseLocation_total (isLocText s -> parseLocation s != panic, w-loc, 92d76cf) "
+               "and its corollary Props.C01.parse_layout_locations_total (for every wfLoose record and layout the parser returns the "
+               "record and parseLocation panics on none of its feature locations, so the driver's panic-parity branch never decides an "
+               "in-domain case); Props.C02.parseLocation_panics_unclosed names the texts that do panic (a first '(' with no ')' after it)",
                "extra keyword blocks have pairwise distinct keywords (Meta.Other is a map; GenBank has one block per keyword); SOURCE is always followed by its mandatory ORGANISM line",
-               "parseLocation (property C02) does not panic on the location texts of the domain; C01 compares the location text only",
+               "C01 compares the location text only; the parsed Location is property C02's (its model of parseLocation is the one the "
+               "driver and parse_layout_locations_total use: that model corresponds to Go's parseLocation is C02's correspondence, not C01's)",
                "ioutil.ReadFile / gzip return the bytes written (Read* wrappers are checked by correspondence only)"]
 HARNESS_BIN = "run-genbank"
 EXTRACT_BINS = []
@@ -247,9 +251,17 @@ def record(r, tier, big=False, trap=0.001, small=False, repeat=False):
         f += [t, nats(breaks(r, t, 12))]
     nrefs = 0 if small and r.random() < 0.5 else r.choice([0, 1, 1, 2, 2, 3, 4, 5])
     f.append(str(nrefs))
-    for _ in range(nrefs):
+    own = r.random() < 0.4                                        # references that state their own number
+    prev = ""
+    for j in range(nrefs):
         rng_ = r.choice(["", "(bases 1 to %d)" % n, "(sites)", "(bases 1 to %d; 3 to 4)" % n])
-        f += [rng_, nats(breaks(r, rng_, 16)), str(r.randint(0, 1))]
+        num = ""
+        if own and r.random() < 0.8:                              # not 1..n: gaps, repeats, 0, descending, not a number at all
+            num = r.choice([str(j + 1), str(j + 2), str(r.randint(0, 130)), str(r.randint(0, 9)), "0", "1", prev or "7", str(nrefs - j),
+                            "007", "12345678901234567890", "[%d]" % (j + 1), "%d." % (j + 1), "2a", "x", "-1", "REFERENCE", "//", '"', "/", "="])
+        prev = num or str(j + 1)
+        head = (num or str(j + 1)) + ("  " + rng_ if rng_ else "")  # the text that is wrapped: number, two blanks, range
+        f += [num, rng_, nats(breaks(r, head, 12)), str(r.randint(0, 1))]
         for kw, mx in (("AUTHORS", 30), ("TITLE", 30), ("JOURNAL", 20), ("PUBMED", 1), ("REMARK", 15)):
             t = "" if r.random() < 0.3 else text(r, r.randint(1, mx), trap)
             f += [t, nats(breaks(r, t, 12))]
@@ -292,7 +304,7 @@ def with_features(rec, feats):
     """replace the feature table of a record (field list) by the given features (each a field list)"""
     # fields: 11 header fields, 12 meta fields, refs, extras, features, seq
     i = 13 + 12
-    nrefs = int(rec[i]); i += 1 + 13 * nrefs
+    nrefs = int(rec[i]); i += 1 + 14 * nrefs
     nex = int(rec[i]); i += 1 + 3 * nex
     out = rec[:i] + [str(len(feats))]
     for ft in feats:
@@ -452,14 +464,17 @@ LEVEL_TEXT = ("(Layout family widened after review: empty standard blocks writte
               "Every clause is a kernel-checked theorem about the model for ALL abstract records in the domain predicate wf and ALL "
               "layout choices (no bound on sequence length below 10^8, number of features, qualifiers, references, records, line "
               "widths): origin_recovered, locus_recovered (every name, a stated length of any number of digits or none, each of the 12 "
-              "molecule types or none, topology / division / date or none, all gaps), sublines_rejoined/block_rejoined, source_organism_recovered, reference_recovered, "
+              "molecule types or none, topology / division / date or none, all gaps), sublines_rejoined/block_rejoined, source_organism_recovered, reference_recovered (the reference's own number, any blank-free token — gaps, repeats, 0 — or "
+              "its position when it states none), "
               "features_recovered (multi-line locations with and without qualifiers, values with '/', '=', wrapped before '/', "
               "/translation cut mid-token), parse_layout (composition on the text, with and without final newline), "
               "parseMulti_layout + parseMulti_eq_parse_each (k records -> k results, each = parsing the record alone), "
-              "parseFlat_layout (any 10-line header). The model is tied to /repo by correspondence on the same (record, layout) "
+              "parseFlat_layout (any 10-line header), parse_layout_locations_total (no location of an in-domain record makes "
+              "parseLocation panic, from C02's parseLocation_total). The model is tied to /repo by correspondence on the same (record, layout) "
               "pairs: Parse, ParseMulti, ParseFlat and Read, ReadMulti, ReadFlat, ReadFlatGz, all fields the property lists.")
 LEVEL_NOTE = ("Trusted: Lean kernel; Spec/GbLayout.lean (the writer and wf, typed from the NCBI flat-file description); the scanners that "
-              "stand for the four regular expressions; ASCII; parseLocation (C02) not panicking on domain location texts; "
+              "stand for the four regular expressions; ASCII; C02's model of parseLocation (proved not to panic on domain location texts: "
+              "Props.C02.parseLocation_total / Props.C01.parse_layout_locations_total); "
               "file I/O and gzip of the Read* wrappers. Six defects found by this check or its review were repaired in /repo (5a12a0c, c94d396, "
               "49c2e81, d6becc3, 1a072ef, 1650bb9); their exemplars stay in gen/corpus/C01 as regression cases.")
 
